@@ -78,6 +78,7 @@ Inductive label :=
 | LReadEof
 | LReadErr
 | LWriteFail                      (* _transport_write returned <= 0: SessionCloseError raised in the loop *)
+| LRaise (e : exc)                (* parser.parse raised: 6 NetconfFramingError (chunk framing broken), 3 any other (undecodable octets) *)
 | LTValues (ids : list N)
 | LTClear
 | LEvSetErr (rid : nat)
@@ -275,6 +276,7 @@ Definition step (s : st) (l : label) : option st :=
   | LReadEof => if is_idle (pc s) then Some (with_pc (with_eof s) (WRaise 1)) else None
   | LReadErr => if is_idle (pc s) then Some (with_pc s (WRaise 3)) else None
   | LWriteFail => if is_idle (pc s) then Some (with_pc s (WRaise 1)) else None
+  | LRaise e => if is_idle (pc s) then Some (with_pc s (WRaise e)) else None
   | LErrBcast e =>
       match pc s with
       | WRaise e' => if N.eqb e e' then Some (with_pc (with_skipok (with_bcast s (Some e)) (negb (lst s))) (WErrSnap e)) else None
